@@ -373,6 +373,7 @@ func (s *ShapeNested) fields() []fd {
 func (s *ShapeOpen) fields() []fd {
 	return []fd{fPlain(40, "any", true, s.Any != nil, s.Any), fPlain(41, "m", true, len(s.M) > 0, s.M), fPlain(42, "l", true, len(s.L) > 0, s.L), fStr(43, "s", false, s.S)}
 }
+
 // open-typed values come back from CBOR in the decoder's generic Go types
 // (maps inside an any as map[any]any ...): the reference for "reproduces the
 // value" is what the plain codec's own round trip reproduces
